@@ -50,7 +50,7 @@ impl Method for MedianAbsDev {
 
 	fn new(length: Self::Params, value: &Self::Input) -> Result<Self, Error> {
 		match length {
-			0 | 1 => Err(Error::WrongMethodParameters),
+			0 | 1 | PeriodType::MAX => Err(Error::WrongMethodParameters),
 			length => Ok(Self {
 				smm: SMM::new(length, value)?,
 				divider: (length as ValueType).recip(),
